@@ -252,6 +252,9 @@ func (e *c34Env) boundaryPayloads() []c34Payload {
 		{"rpm-types", []wire.Content{{Dst: "/var/log/app.log", Type: "ghost"}, {Src: j("share/doc/README"), Dst: "/usr/share/doc/app/README", Type: "readme"},
 			{Src: j("share/doc/LICENSE"), Dst: "/usr/share/doc/app/LICENSE", Type: "license"}, {Src: j("share/doc/README"), Dst: "/usr/share/doc/app/doc", Type: "doc"},
 			c34File(j("bin/tool"), "/usr/bin/tool")}},
+		// top-level names that sort before ".PKGINFO" / before any letter (member and manifest order must not depend on them)
+		{"low-sorting-names", []wire.Content{c34File(j("bin/tool"), "/+extras/tool"), c34File(j("etc/app.conf"), "/-dash"), c34File(j("share/doc/README"), "/.BUILDINFO"),
+			c34File(j("share/doc/LICENSE"), "/.aaa/file"), {Dst: "/!bang/", Type: "dir"}, c34File(j("bin/tool"), "/usr/bin/tool")}},
 		{"long-names", []wire.Content{c34File(j("bin/tool"), "/opt/long/"+strings.Repeat("d", 60)+"/"+strings.Repeat("n", 120)+".txt"),
 			c34File(j("etc/app.conf"), "/opt/long/"+strings.Repeat("e", 90)+"/"+strings.Repeat("f", 90)+"/"+strings.Repeat("g", 110)),
 			{Src: "/" + strings.Repeat("t", 130), Dst: "/opt/long/" + strings.Repeat("l", 101), Type: "symlink"}}},
